@@ -8,8 +8,16 @@ def run(ctx):
         envs=[("t1", {"RAYON_NUM_THREADS": "1"}), ("t4", {"RAYON_NUM_THREADS": "4"}), ("t16", {"RAYON_NUM_THREADS": "16"})], cross=sqlprop.cross_success_consistency(),
         rule='Each corpus case is run with the input split into 1/2/3/7 batches, 1/2/8/16 partitions (multi-partition memory scans via a verification switch), Parquet row-group partitioning, under RAYON_NUM_THREADS 1/4/16 (separate processes); every outcome is judged by TLC against SqlSem.')
 
+    import partcontract
+    partcontract.run_partition_contract(ctx)
+
+
 def replay(ctx, obj):
+    if obj.get("case", {}).get("kind") == "partition_contract":
+        import partcontract
+        return partcontract.replay_partition_contract(ctx, obj)
     sqlcheck.replay_sql(ctx, obj)
 
 def selftest(ctx):
-    return sqlprop.selftest(ctx, [])
+    import partcontract
+    return partcontract.selftest_partition_contract(ctx) or sqlprop.selftest(ctx, [])
